@@ -10,7 +10,8 @@ rows=[]; n=0; first=0
 for d in sorted(glob.glob('/verif/seeded/*/meta.json')):
     m=json.load(open(d)); name=d.split('/')[3]; n+=1
     ch=", ".join(f"{k}: {(v['first'][0].strip().split(':')[0] if v['first'] else ('VIOLATION' if v['violation'] else 'not detected'))}" for k,v in m['checks'].items())
-    if name not in notes: first+=1
+    nt=notes.get(name,'')
+    if not (nt.startswith('missed') or nt.startswith('would have been missed') or nt.startswith('the check could not be built') or 'missed it as it stood' in nt or nt.startswith('NOT detected') or 'not detected' in nt.lower()[:40]): first+=1
     rows.append(f"| {name} | {m['breaks_property']} | {', '.join(m['files_changed'])} | {ch} | {notes.get(name,'caught by the check as it stood')} |")
 muts=[]
 for f in sorted(glob.glob('/verif/mutants/*.json')):
